@@ -47,6 +47,11 @@ size_t splinetable<Alloc>::estimateMemory(const std::string& filePath,
 	fits_get_img_dim(fits, &dim, &error);
 	if (error != 0)
 		throw std::runtime_error("Unable to read table dimension from "+filePath);
+	if (dim < 1)
+		throw std::runtime_error(filePath+" does not contain a spline table");
+	if (convolution_dimension >= unsigned(dim))
+		throw std::out_of_range("Cannot convolve dimension "+std::to_string(convolution_dimension)
+		                        +" of a spline with "+std::to_string(dim)+" dimensions");
 	
 	//Find out how many coefficients there are
 	std::vector<long> naxes(dim);
